@@ -21,14 +21,29 @@ fn gen_case(fmt: Fmt, r: &gen::Recipe, lim: Limits) -> Case {
     }
 }
 
+/// Overwrite 32 KiB of stack below the caller with a pattern: `Fill(v)` = every word v (all-zero and all-one
+/// fills make a read of stale / never-written memory change the result deterministically: zeros are what the
+/// correct code would have written there), `Mixed(p)` = position-dependent words.
+#[derive(Clone, Copy)]
+enum Poison {
+    Fill(u64),
+    Mixed(u64),
+}
+
 #[inline(never)]
-fn poison_stack(pattern: u64) -> u64 {
+fn poison_stack(p: Poison) -> u64 {
     let mut a = [0u64; 4096];
     for (i, x) in a.iter_mut().enumerate() {
-        *x = pattern.rotate_left(i as u32 % 64) ^ i as u64;
+        *x = match p {
+            Poison::Fill(v) => v,
+            Poison::Mixed(pattern) => pattern.rotate_left(i as u32 % 64) ^ i as u64,
+        };
     }
     let a = std::hint::black_box(a);
-    a[(pattern % 4096) as usize]
+    a[match p {
+        Poison::Fill(v) => (v % 4096) as usize,
+        Poison::Mixed(v) => (v % 4096) as usize,
+    }]
 }
 
 fn differ(fmt: Fmt, cfg: &Cfg, c: &Case, what: &str, base: u64, got: Result<u64, String>) -> Failure {
@@ -101,15 +116,17 @@ fn check_case(fmt: Fmt, c: &Case, r: &gen::Recipe, stats: &mut Stats) -> Result<
                 let _ = catch(|| cfg.parse(ofmt, &garbage, &[], (h >> 30) as i32));
             }
         }
-        std::hint::black_box(poison_stack(gen::mix(h)));
-        let got = catch(|| cfg.parse(fmt, &c.int, &c.frac, c.exp));
-        if got != Ok(base) {
-            return Err(differ(fmt, cfg, c, "history: after other parses and a stack-poisoning pass", base, got));
-        }
-        std::hint::black_box(poison_stack(!gen::mix(h)));
-        let got = catch(|| cfg.parse(fmt, &c.int, &c.frac, c.exp));
-        if got != Ok(base) {
-            return Err(differ(fmt, cfg, c, "history: second stack pattern", base, got));
+        for (p, what) in [
+            (Poison::Mixed(gen::mix(h)), "history: after other parses and a stack-poisoning pass"),
+            (Poison::Fill(0), "history: stack pre-filled with zeros"),
+            (Poison::Fill(u64::MAX), "history: stack pre-filled with ones"),
+            (Poison::Mixed(!gen::mix(h)), "history: second stack pattern"),
+        ] {
+            std::hint::black_box(poison_stack(p));
+            let got = catch(|| cfg.parse(fmt, &c.int, &c.frac, c.exp));
+            if got != Ok(base) {
+                return Err(differ(fmt, cfg, c, what, base, got));
+            }
         }
         stats.count("history-variants");
     }
@@ -214,7 +231,7 @@ pub fn run(ctx: &Ctx) -> i32 {
          flat_map over chunks + map over single-byte arrays); (2) the same bytes at offsets 0..15 inside a larger heap \
          buffer between guard bytes and adjacent digits, in a stack array, in boxed slices; (3) after a generated \
          history of other parses (other format, big-integer path, garbage bytes under catch_unwind) and two \
-         stack-poisoning passes; (4) 16 threads parsing a shared list in thread-specific orders behind a barrier, \
+         stack-poisoning passes (position-dependent words, all zeros, all ones - so that a read of stale or never-written stack memory changes the outcome deterministically); (4) 16 threads parsing a shared list in thread-specific orders behind a barrier, \
          compared with the sequential results. Inputs are weighted to the big-integer path and truncated digits (the \
          code that clones and re-walks the iterators). Non-trivial: big-integer path or many_digits in the default \
          or compact configuration; distinct by fingerprint.",
